@@ -1547,6 +1547,8 @@ class Engine:
         if n == 'vf_now_ns' or n == '_ZN4absl7debian319GetCurrentTimeNanosEv':
             if s.phase == 'init': return 1000 * 1000000000
             return s.time_event(p, ins.text)
+        if n.startswith('_ZN6google8protobuf8internal10LogMessageC'):       # GOOGLE_CHECK / GOOGLE_LOG(FATAL) reached
+            s.asserts.append((list(p.pc), z3.BoolVal(False), 'protobuf CHECK failed: ' + ins.text[:50], s.tid)); return 'end'
         if n in ('abort', '__assert_fail', 'llvm.trap', '_ZSt9terminatev', '_ZSt25__throw_bad_function_callv', '__cxa_pure_virtual'):
             s.asserts.append((list(p.pc), z3.BoolVal(False), 'abort: ' + ins.text[:60], s.tid)); return 'end'
         raise Unsupported('no stub for %s' % name)
